@@ -10,6 +10,7 @@ import (
 	"go/token"
 	"go/types"
 	"math"
+	"math/big"
 	"sort"
 	"strings"
 
@@ -112,6 +113,11 @@ type Interp struct {
 	access   *accessLog
 	ovf      []*Term
 	unknownFeas int
+	specDepth   int
+	model       Model
+	evalSkips   int
+	merges      int
+	mergeAborts int
 	harnessState map[string]Value
 }
 
@@ -131,29 +137,61 @@ func (in *Interp) addPC(c *Term) {
 	if c.IsConst() && c.b {
 		return
 	}
+	if in.model != nil {
+		if v, ok := in.tb.eval(c, in.model, map[*Term]evalVal{}); !ok || !v.b {
+			in.model = nil
+		}
+	}
 	in.pc = append(in.pc, c)
 }
 
-func (in *Interp) feasible(c *Term) bool {
-	if c.IsConst() {
-		return c.b
+func (in *Interp) nondetTerms() []*Term {
+	ts := make([]*Term, len(in.nondets))
+	for i, n := range in.nondets {
+		ts[i] = n.T
 	}
-	res, _ := in.w.check(append(append([]*Term{}, in.pc...), c), nil)
+	return ts
+}
+
+// feasibleM decides whether PC ∧ c is satisfiable and returns a model of it when one is at hand.
+func (in *Interp) feasibleM(c *Term) (bool, Model) {
+	if c.IsConst() {
+		return c.b, in.model
+	}
+	if in.model != nil && !in.cfg.NoEvalSkip {
+		if v, ok := in.tb.eval(c, in.model, map[*Term]evalVal{}); ok && v.b {
+			in.evalSkips++
+			return true, in.model
+		}
+	}
+	ts := in.nondetTerms()
+	res, vals := in.w.check(append(append([]*Term{}, in.pc...), c), ts)
 	switch res {
 	case "sat":
-		return true
+		return true, modelFromVals(ts, vals, in.tb.fmode)
 	case "unsat":
-		return false
+		return false, nil
 	}
 	in.unknownFeas++
 	in.note("feasibility unknown (kept): " + trunc(res, 60))
-	return true
+	return true, nil
+}
+
+func (in *Interp) feasible(c *Term) bool {
+	f, m := in.feasibleM(c)
+	if f && m != nil {
+		in.model = m
+	}
+	return f
 }
 
 // branch decides a symbolic condition, forking if both outcomes are feasible.
 func (in *Interp) branch(c *Term) bool {
 	if c.IsConst() {
 		return c.b
+	}
+	if in.specDepth > 0 {
+		panic(specAbort{"decision"})
 	}
 	in.branches++
 	if in.pos < len(in.prefix) {
@@ -169,16 +207,20 @@ func (in *Interp) branch(c *Term) bool {
 	}
 	in.pos++
 	nc := in.tb.Not(c)
-	if !in.feasible(c) {
+	fc, mc := in.feasibleM(c)
+	if !fc {
 		in.decisions = append(in.decisions, 0)
 		in.addPC(nc)
 		return false
 	}
-	if in.feasible(nc) {
+	if fn, _ := in.feasibleM(nc); fn {
 		alt := append(append([]int{}, in.decisions...), 0)
 		in.spawn(alt)
 	}
 	in.decisions = append(in.decisions, 1)
+	if mc != nil {
+		in.model = mc
+	}
 	in.addPC(c)
 	return true
 }
@@ -190,6 +232,9 @@ func (in *Interp) choose(n int) int {
 	}
 	if n == 1 {
 		return 0
+	}
+	if in.specDepth > 0 {
+		panic(specAbort{"decision"})
 	}
 	if in.pos < len(in.prefix) {
 		d := in.prefix[in.pos]
@@ -209,6 +254,9 @@ func (in *Interp) choose(n int) int {
 func (in *Interp) concretize(t *Term, what string) int64 {
 	if t.IsConst() {
 		return t.i
+	}
+	if in.specDepth > 0 {
+		panic(specAbort{"decision"})
 	}
 	if in.pos < len(in.prefix) {
 		d := in.prefix[in.pos]
@@ -247,9 +295,15 @@ func (in *Interp) concretize(t *Term, what string) int64 {
 }
 
 func (in *Interp) newNondet(kind, label string, s Sort) *Term {
+	if in.specDepth > 0 {
+		panic(specAbort{"nondet"})
+	}
 	name := fmt.Sprintf("%s#%d", label, len(in.nondets))
 	t := in.tb.Var(name, s)
 	in.nondets = append(in.nondets, Nondet{T: t, Kind: kind, Label: label})
+	if in.model != nil {
+		in.model[t] = evalVal{r: new(big.Rat)}
+	}
 	return t
 }
 
@@ -301,6 +355,9 @@ func (in *Interp) modelScript(extra []*Term) (string, []ScriptVal, []ObservedVal
 }
 
 func (in *Interp) assert(c *Term, msg, kind string, where string) {
+	if in.specDepth > 0 {
+		panic(specAbort{"assert"})
+	}
 	in.asserts[msg]++
 	if c.IsConst() && c.b {
 		in.w.stats.Obligations++
@@ -538,6 +595,9 @@ func (in *Interp) callFn(fn *ssa.Function, args []Value, free []Value) (ret Valu
 	if fn.Name() == "init" && fn.Pkg != nil && fn.Signature.Recv() == nil && !in.cfg.initPkg(fn.Pkg.Pkg.Path()) {
 		return nil
 	}
+	if in.specDepth > 0 {
+		panic(specAbort{"interpreted call"})
+	}
 	in.depth++
 	if in.depth > in.cfg.MaxDepth {
 		panic(pathEnd{endBound, "call depth exceeded in " + fn.String()})
@@ -553,6 +613,8 @@ func (in *Interp) callFn(fn *ssa.Function, args []Value, free []Value) (ret Valu
 	}
 	var prev *ssa.BasicBlock
 	block := fn.Blocks[0]
+	merged := false
+	var loopCnt map[*ssa.BasicBlock]int
 	for {
 		// phis first (parallel assignment)
 		nphi := 0
@@ -561,6 +623,10 @@ func (in *Interp) callFn(fn *ssa.Function, args []Value, free []Value) (ret Valu
 			phi, ok := instr.(*ssa.Phi)
 			if !ok {
 				break
+			}
+			if merged {
+				nphi++
+				continue
 			}
 			idx := -1
 			for i, p := range block.Preds {
@@ -572,9 +638,12 @@ func (in *Interp) callFn(fn *ssa.Function, args []Value, free []Value) (ret Valu
 			phiVals = append(phiVals, in.get(fr, phi.Edges[idx]))
 			nphi++
 		}
-		for i := 0; i < nphi; i++ {
-			fr.env[block.Instrs[i].(*ssa.Phi)] = phiVals[i]
+		if !merged {
+			for i := 0; i < nphi; i++ {
+				fr.env[block.Instrs[i].(*ssa.Phi)] = phiVals[i]
+			}
 		}
+		merged = false
 		var next *ssa.BasicBlock
 		for _, instr := range block.Instrs[nphi:] {
 			in.steps++
@@ -584,12 +653,21 @@ func (in *Interp) callFn(fn *ssa.Function, args []Value, free []Value) (ret Valu
 			switch x := instr.(type) {
 			case *ssa.If:
 				c := in.term(in.get(fr, x.Cond), "if")
-				taken := in.branch(c)
 				if !c.IsConst() {
-					// unwinding bound for loops governed by symbolic data
-					in.loopCnt[block]++
-					if in.loopCnt[block] > in.cfg.Unwind {
-						panic(pathEnd{endBound, fmt.Sprintf("symbolic loop/branch at %s visited more than %d times", in.prog.Fset.Position(x.Pos()), in.cfg.Unwind)})
+					if j, ok := in.tryMerge(fr, block, c); ok {
+						next, merged = j, true
+						break
+					}
+				}
+				taken := in.branch(c)
+				if !c.IsConst() && (strings.HasPrefix(block.Comment, "for.") || strings.HasPrefix(block.Comment, "range")) {
+					// unwinding bound (with unwinding assertion) for loops whose continuation test is symbolic
+					if loopCnt == nil {
+						loopCnt = map[*ssa.BasicBlock]int{}
+					}
+					loopCnt[block]++
+					if loopCnt[block] > in.cfg.Unwind {
+						panic(pathEnd{endBound, fmt.Sprintf("loop with symbolic continuation test in %s (block %d %s, %s) iterated more than %d times", fn.Name(), block.Index, block.Comment, in.prog.Fset.Position(fn.Pos()), in.cfg.Unwind)})
 					}
 				}
 				if taken {
